@@ -157,6 +157,14 @@ def setup_engine(world, reg, qual) -> tuple[Engine, State, dict]:
             st.env[n] = v
             if n in eng.cellvars:
                 st.set_fld("cell:" + n, st.envref, v.t)
+    if fi.outer:
+        # typing facts of the captured variables the contract declares (they hold when the closure is created)
+        for n, ty in getattr(spec, "cell_types", {}).items():
+            if n in eng.freevars:
+                a_ = st.ghost["outer_env"]
+                for _ in range(eng.free_depth.get(n, 1) - 1):
+                    a_ = Val.a(st.fld("cell:__parent__", a_))
+                eng.typed(st, st.fld("cell:" + n, a_), ty)
     if spec.check_guarantee:
         for entry in reg.invariants:
             eng.assume_invariant(st, entry, HeapView(st.heap))
